@@ -257,6 +257,14 @@ func blastMain(args mon.Args, prop string) {
 						}
 					}
 					feed(e, d, "hostile")
+				case r >= 92 && (proto == "ipfix" || proto == "nf9"):
+					feed(e, tr.DataMixed(e, id+1, k%2 == 0), "data mixed with a set of an unknown template")
+				case r >= 84:
+					d := tr.Data(e, id+1, k%2 == 0)
+					if cut := 1 + g.Intn(160); cut < len(d) {
+						d = d[:len(d)-cut]
+					}
+					feed(e, d, "data cut short at the tail")
 				default:
 					feed(e, tr.Data(e, id+1, k%2 == 0), "data")
 				}
@@ -453,13 +461,16 @@ func blastMain(args mon.Args, prop string) {
 			mirrorLn.Close()
 		}
 	}
+	if prop == "C01" && args.Replay == "" {
+		stormProcess(run, dir)
+	}
 	run.Set("datagrams_sent_over_udp", totalSent)
 	run.Set("messages_at_the_sink", totalPub)
 	run.Set("kernel_drops", totalDrops)
 	run.Set("collector_processes", nProc)
 	switch prop {
 	case "C01":
-		run.SetRule("end-to-end tier: the real binary on all four UDP ports, worker counts 1/4/32, max-udp-size 512/1500/9000, mirroring on in every second process; well-formed traffic mixed with 25% truncated, random, bit-flipped and length-poisoned datagrams; verdict = the process is alive, nothing panicked, and its counters show the datagrams were taken in")
+		run.SetRule("end-to-end tier: the real binary on all four UDP ports, worker counts 1/4/32, max-udp-size 512/1500/9000, mirroring on in every second process; well-formed traffic mixed with 25% truncated, random, bit-flipped and length-poisoned datagrams; verdict = the process is alive, nothing panicked, and its counters show the datagrams were taken in. A further process (race-detector build, 32 workers) takes unchanged template re-announcements of 300 exporters mixed with data around 2 (thorough: 6) wall-clock second boundaries - cache entries carry their announcement time, so this everyday traffic reaches code no sub-second run reaches; it must survive and the race detector must see no unsynchronised access to a Go map from collector code (the pattern the runtime turns into 'fatal error: concurrent map writes')")
 	case "C12":
 		run.SetRule("end-to-end tier: the real binary (real run() loops, sockets, workers, producer, TCP sink), exporters 127.x.y.z, templates in force before data; every line at the sink must equal byte-for-byte the stand-alone decode of its datagram (this is where a change inside run(), e.g. handing over b instead of b[:n], becomes visible)")
 	case "C13":
